@@ -228,6 +228,31 @@ pub fn judge(_cfg: &Config, case: &Case, l: &mut Local, stratum: &str) {
                             let b = t2.fields.get(k).map(|f| f.tag.as_str()).unwrap_or("<end>");
                             v(l, "json-route", a, &format!("->{b}"), format!("field {a}: the message read back from its own JSON publishes a different text (field {b} in its place or with other content); first seen in MT{mt}"), case);
                         }
+                        // ... and through the publish workflow function (one case in four): the published text block
+                        // holds the fields of the direct serialisation
+                        // (only where the direct serialisation gave the input back: what the parser itself loses
+                        // is reported above, under its own key)
+                        let direct_clean = {
+                            let (ti, to) = (tok::tokenize(text), tok::tokenize(&y));
+                            ti.fields.len() == to.fields.len() && ti.fields.iter().zip(&to.fields).all(|(a, b)| a.tag == b.tag && canon(&a.content) == canon(&b.content))
+                        };
+                        if direct_clean && hash_bytes2(mt, text) % 4 == 0 {
+                            let full = format!("{{1:F01BANKBEBBAXXX0000000000}}{{2:I{mt}BANKDEFFXXXXN}}{{4:\n{text}\n-}}");
+                            if let Ok(Ok(mf)) = guard(|| (ops.parse_full)(&full))
+                                && let Ok(Ok(jf)) = guard(|| mf.json())
+                                && let Ok(Ok(p)) = guard(|| crate::plug::publish_json(&jf))
+                                && let Some(b4p) = corpus::block4_of(&p)
+                            {
+                                let (t1, t2) = (tok::tokenize(&y), tok::tokenize(&b4p));
+                                let same = t1.fields.len() == t2.fields.len() && t1.fields.iter().zip(&t2.fields).all(|(a, b)| a.tag == b.tag && canon(&a.content) == canon(&b.content));
+                                if !same {
+                                    let k = t1.fields.iter().zip(&t2.fields).position(|(a, b)| a.tag != b.tag || canon(&a.content) != canon(&b.content)).unwrap_or(t1.fields.len().min(t2.fields.len()));
+                                    let a = t1.fields.get(k).map(|f| f.tag.as_str()).unwrap_or("<end>");
+                                    let b = t2.fields.get(k).map(|f| f.tag.as_str()).unwrap_or("<end>");
+                                    v(l, "publish-route", a, &format!("->{b}"), format!("field {a}: the publish plugin writes the message's JSON with field {b} in its place (or with other content) than to_mt_string; first seen in MT{mt}"), case);
+                                }
+                            }
+                        }
                     }
                 }
             }
